@@ -146,6 +146,21 @@ CHECKS["C19"] = dict(
           "kinks does not hold (trapezoid) and is not claimed. Pipe standard-type parameters reaching created pipes is part of C16."),
     ref="DESIGN.md section 4 C19")
 
+CHECKS["C12"] = dict(
+    engine="E4",
+    technique="contract-based deductive verification of frame conditions: abstract interpretation (location tags, callee summaries to a fixpoint, dynamic dispatch over all component classes) of every write site in the pipeflow call closure; flow-sensitive must-analysis of stale reads along pipeflow(); scan for nondeterminism sources",
+    text=("Every store in the ~260 functions reachable from pipeflow is proved to target only net['_...'], net['res_...'], net.converged, the "
+          "hyd_flag bookkeeping key or fresh local objects -- never an element table or a view of one of its columns, the fluid, the "
+          "standard types, other stored user options or module-level option dictionaries; every read of an underscore entry along "
+          "pipeflow() is proved to be preceded by a write in the same run (under transient = reuse_internal_data = "
+          "only_update_hydraulic_matrix = False); the closure contains no source of nondeterminism."),
+    note=(TB + "aliasing facts of numpy/pandas (A4): .values / .to_numpy() / basic slices / .T / np.asarray may alias, fancy indexing, arithmetic, "
+          ".copy(), .astype(), np.array and other library calls return fresh objects; library calls do not mutate their arguments except "
+          "through out= / copy=False / inplace=True and the listed mutating methods. Bit-identical repetition additionally assumes "
+          "deterministic BLAS / SuperLU / numba. 'Heat from stored hydraulics equals sequential' is covered only through the stale-read "
+          "and frame obligations, not by a column read-set proof."),
+    ref="DESIGN.md section 4 C12")
+
 NOT_APPLICABLE = {
     "C08": "uniqueness of the solution of the nonlinear system within tolerances and convergence of damped Newton in floating point: a whole-history/analytic property, no pre/post contract within reach expresses it (DESIGN.md section 5)",
     "C15": "the save/load round trip is the behaviour of pandapower/pandas/json/pickle/scipy object state; a contract strong enough would have to assume the property (DESIGN.md section 5)",
